@@ -4,7 +4,9 @@ import re
 from . import common as C
 from . import kh
 
-RULE = ("the 23 strongly invertible diagrams of the built-in table (3_1 ... 7_7b) and their mirrors; for each, reduced and unreduced, "
+RULE = ("the 23 strongly invertible diagrams of the built-in table (3_1 ... 7_7b) and their mirrors, plus strongly invertible "
+        "pretzel diagrams P(3,1,2,1,1) (two listings), P(1,1,2,1,3), P(3,1,4,1,1) whose off-axis crossings form two groups on "
+        "each side of the axis (every table knot has one); for each, reduced and unreduced, "
         "h in {0,1} over F2: (khi) the F2-dimensions of KhIHomology per degree (and per bidegree for h=0) against the mapping cone of "
         "1+tau built on the Coq cube complex (diagrams up to 6 (quick) / 8 (thorough) crossings; the oracle checks on each instance that tau "
         "is defined, involutive and commutes with d mod 2); (sym) SymTngBuilder::build_kh_complex against the ordinary engine on the "
